@@ -192,7 +192,13 @@ func c17Program(run *common.Run, prog int) {
 	r := run.Rand("C17.prog", prog)
 	clock := gen.BaseClock
 	var srvs []*drive.Srv
-	for _, e := range drive.Engines {
+	engines := drive.Engines
+	if !drive.DiskEngineAvailable() {
+		// the emulator leaks the descriptors of every deleted on-disk table until the process exits
+		engines = engines[:2]
+		run.Count("programs_without_disk_engine_for_descriptor_budget", 1)
+	}
+	for _, e := range engines {
 		s, err := drive.Start(e, clock, "")
 		if err != nil {
 			run.Violation("prog", prog, "cannot start server: "+err.Error(), nil)
@@ -230,6 +236,9 @@ func c17Program(run *common.Run, prog int) {
 			created[id]++
 			if created[id] > 1 {
 				sawRecreate = true
+			}
+			if len(srvs) == 3 {
+				drive.NoteDiskTables(1)
 			}
 			pid := id
 			do = func(sv *drive.Srv) string { return drive.CreateTable(sv.Admin, drive.Parent, pid, fams).String() }
@@ -395,7 +404,7 @@ func c17Program(run *common.Run, prog int) {
 		for i := 1; i < len(outs); i++ {
 			if outs[i] != outs[0] {
 				run.Violation("prog", prog, fmt.Sprintf("engines disagree on step %d %s: %s answered %s but %s answered %s", s, desc, drive.Engines[0], truncStr(outs[0], 600), drive.Engines[i], truncStr(outs[i], 600)),
-					map[string]any{"steps": steps, "responses": map[string]string{"btree": outs[0], "ldbmem": outs[1], "ldbdisk": outs[2]}})
+					map[string]any{"steps": steps, "responses": outs})
 				return
 			}
 		}
